@@ -2,9 +2,11 @@
 Spec: spec/Mint.tla.  Legs: exhaustive TLC on the bounded model (MCMint, scale 10^2),
 spec->impl replay of every complete exact behaviour of a second bounded model on the
 real mint keeper, impl->spec validation of recorded random parameter sets x consecutive
-real AfterEpochEnd calls on a full app (TraceMint, BigNum at scale 10^18)."""
+real AfterEpochEnd calls on a full app (TraceMint, BigNum at scale 10^18).  Design level, unbounded: Apalache inductive
+invariant of the schedule and allocation arithmetic (spec/apa/MintInd.tla; apalache_leg)."""
 import json, os, time
 import vlib
+import checks.apalache as apalache
 from vlib import Infra, Violation, log
 
 TRUST = ("Trusted: TLC evaluator, Json/IOUtils community modules, BigNum java override (differentially "
@@ -12,7 +14,8 @@ TRUST = ("Trusted: TLC evaluator, Json/IOUtils community modules, BigNum java ov
 MANIFEST = {
     "engine": "tlc+go-harness", "design_ref": "DESIGN.md section 4 (C18), section 7 item 5",
     "technique": "TLA+ spec Mint.tla; TLC exhaustive MC at scale 10^2; TLC-generated behaviours replayed on the real "
-                 "mint keeper; recorded epoch sequences trace-validated by TLC with BigNum",
+                 "mint keeper; recorded epoch sequences trace-validated by TLC with BigNum; Apalache inductive invariant of the schedule "
+                 "and allocation arithmetic over unbounded integers (design level)",
     "text": "Mint.tla models mint.AfterEpochEnd as Skip / EpochEnd / EpochFail over provision, last reduction epoch, "
             "parameters, ledgers (mint account, fee collector, pool-incentives, incentives, community pool, developer "
             "vesting, receivers), reported supply and offset. Invariants: mint account empty, conservation, reported "
@@ -23,7 +26,14 @@ MANIFEST = {
             "on the real keeper and compared after every epoch; random parameter sets (proportions incl. zeros, any "
             "factor/period/start epoch, 0-16 weighted receivers incl. empty addresses, provisions 1..1e13, three "
             "pool-incentives configurations, funded and underfunded vesting account) x 50-500 consecutive real "
-            "AfterEpochEnd calls are validated line by line with every share recomputed in BigNum.",
+            "AfterEpochEnd calls are validated line by line with every share recomputed in BigNum. Design level, unbounded "
+            "parameters: for any period >= 1, start epoch, scale, factor, proportions summing to at most 1 and any number of "
+            "epochs, 'last reduction = anchor + (number of reductions) * period, never overdue, never early', mint account empty, "
+            "staking + pool + developer + community (the non-negative remainder) = minted so far = growth of the supply, and the "
+            "step properties (provision changes only by a due reduction, per-epoch growth = floor(provision), nothing before the "
+            "start) are an inductive invariant of the typed sub-model spec/apa/MintInd.tla (provision as an integer at an arbitrary "
+            "fixed scale), checked by Apalache (initiation, consecution, implication, two broken variants that must fail); developer "
+            "receivers / vesting dust are outside that sub-model and the binding to the Go code remains the TLC trace/replay legs.",
     "note": TRUST + " Transaction atomicity of the epoch hook emulated like osmoutils.ApplyFuncIfNoError (cache context "
             "+ recover). Mint denom set to the base coin unit as on the real chain.",
 }
@@ -132,9 +142,26 @@ def describe_growth(v):
         return {"undescribed": str(ex)}
 
 
+def apalache_leg(ctx, cov):
+    """Design level, UNBOUNDED (any period >= 1, start epoch, scale, factor, proportions, number of epochs): IndInv of
+    spec/apa/MintInd.tla is inductive and implies the schedule / allocation part of C18.  Never a verdict about the code:
+    unexpected outcomes are Infra."""
+    if apalache.skipped():
+        log("VERIF_NO_APALACHE: unbounded design-level leg skipped")
+        cov["apalache"] = {"skipped": "VERIF_NO_APALACHE"}
+        return
+    ctx.leg = "apalache"
+    legs = apalache.standard_legs(broken=[
+        ("NextBrokenEarly", "IndInv", "reduction applied when n >= lastRed + period - 1 (one epoch early): Schedule must break"),
+        ("NextBrokenDust", "IndInv", "community pool gets floor(minted * pc) instead of the remainder: MintEmpty must break")])
+    cov.update(apalache.run("C18", "MintInd.tla", legs))
+
+
 def run(ctx):
     q = ctx.quick
     cov = {"samples": []}
+    # 0. design, unbounded parameters: inductive invariant of the schedule / allocation arithmetic (Apalache)
+    apalache_leg(ctx, cov)
     # 1. design: exhaustive model checking of the bounded spec
     ctx.leg = "mc"
     if q:
@@ -257,6 +284,8 @@ def run(ctx):
                 "checker_cmd": "bin/check C18 --tier " + ctx.tier})
     vlib.write_evidence("C18", ctx.tier, ctx.seed, "model_checking", cov, time.time() - ctx.t0,
                         ["TLC evaluator; Json/IOUtils community modules; BigNum java override",
+                         "Apalache + Z3 (non-linear integer arithmetic) for the unbounded design-level leg (a statement about the typed "
+                         "sub-model spec/apa/MintInd.tla: receivers, vesting account and pool-incentives hook abstracted; it never replaces a TLC leg)",
                          "harness projection of minter / module balances / community pool / supply (shared by both binding directions)",
                          "the epoch hook runs on a cache context under recover and is written only on success, as osmoutils.ApplyFuncIfNoError does",
                          "pool-incentives' use of its share (AfterDistributeMintedCoin hook) is constrained only by conservation and by the kind of distribution records",
